@@ -6,15 +6,19 @@ package main
 //   documented rule recomputed independently; case-insensitivity in address and configuration.
 
 import (
+	"encoding/json"
 	"fmt"
 	"math/rand"
+	"net/http/httptest"
 	"os"
 	"strconv"
 	"strings"
 
 	"github.com/inbucket/inbucket/v3/pkg/config"
 	"github.com/inbucket/inbucket/v3/pkg/policy"
+	"github.com/inbucket/inbucket/v3/pkg/server/web"
 	"github.com/inbucket/inbucket/v3/pkg/stringutil"
+	"github.com/inbucket/inbucket/v3/pkg/webui"
 
 	"verif/harness/internal/core"
 )
@@ -242,6 +246,9 @@ func (e envCfg) line() string {
 
 func randList(r *rand.Rand, gen func(*rand.Rand) string) []string {
 	n := r.Intn(4)
+	if r.Intn(25) == 0 {
+		n = 10 + r.Intn(4) // long lists: nothing may treat the first few entries differently from the rest
+	}
 	l := make([]string, n)
 	for i := range l {
 		l[i] = gen(r)
@@ -289,6 +296,29 @@ func c05Policy(c *core.Ctx) {
 			continue
 		}
 		ap := &policy.Addressing{Config: root}
+		if r.Intn(3) == 0 {
+			// a read-only interface that shows the configuration (GET /serve/status) runs first: the policy must still be the configured one
+			rec := httptest.NewRecorder()
+			if err := webui.RootStatus(rec, httptest.NewRequest("GET", "/serve/status", nil), &web.Context{RootConfig: root, WebConfig: root.Web}); err != nil {
+				c.Fail("status-page-renders", []string{fmt.Sprintf("cfg=%+v", e)}, err.Error(), "")
+			}
+			var st struct {
+				SMTPConfig map[string]interface{} `json:"smtp-config"`
+			}
+			if json.Unmarshal(rec.Body.Bytes(), &st) == nil && st.SMTPConfig != nil {
+				for key, want := range map[string][]string{"accept-domains": e.acc, "reject-domains": e.rej, "store-domains": e.sto, "discard-domains": e.dis, "reject-origin-domains": e.ro} {
+					got, _ := st.SMTPConfig[key].([]interface{})
+					okL := len(got) == len(want)
+					for k := 0; okL && k < len(want); k++ {
+						okL = fmt.Sprint(got[k]) == strings.ToLower(want[k])
+					}
+					if _, present := st.SMTPConfig[key]; present && !okL {
+						c.Fail("status-page-shows-configuration", []string{fmt.Sprintf("cfg=%+v", e)}, fmt.Sprintf("%s: status shows %v, configured %v", key, got, want), "")
+					}
+				}
+			}
+			c.H("policy:status-page-viewed-first")
+		}
 		// domains: from the lists (re-cased), near them, and random
 		doms := []string{randDomain(r), randDomain(r)}
 		for _, l := range [][]string{e.acc, e.rej, e.sto, e.dis} {
